@@ -69,6 +69,9 @@ func C14depth(p *load.Program, run *report.Run) {
 						if _, isC := bo.Y.(*ssa.Const); isC && bo.X == ssa.Value(prm) {
 							compared = true
 						}
+						if _, isC := bo.X.(*ssa.Const); isC && bo.Y == ssa.Value(prm) {
+							compared = true
+						}
 					}
 				}
 			}
